@@ -75,6 +75,7 @@ type Obj struct {
 	ID      int
 	Leaves  []Val
 	Garbage bool // nil leaves are arbitrary recycled content
+	Frozen  bool // existed when the harness called vFreezeShared: memory shared between sessions
 	Pooled  int  // 0 no, 1 live pooled, 2 released
 	Base    bool // lives in the base (init-time) heap
 	Tag     string
